@@ -122,6 +122,11 @@ fn execute_with(p: &Planted, render: bool, ctx: &tera::Context, delims: Option<t
         // template that uses an unknown filter: the batch is refused at validation time (after
         // parsing and compiling), and nothing of it may show in a later report.
         let mut batch: Vec<(String, String)> = p.templates.iter().map(|(n, s)| (n.clone(), moved_down(s))).collect();
+        // ... and a second time, moved down again: a batch may name a template twice, and undoing it
+        // must go through both replacements in reverse (seeded change C12-15: undone front to back,
+        // the first replacement stayed registered under chunks compiled from the original)
+        let again: Vec<(String, String)> = batch.iter().map(|(n, s)| (n.clone(), moved_down(s))).collect();
+        batch.extend(again);
         batch.push(("zz-refused".to_string(), "{{ 1 | zz_no_such_filter }}".to_string()));
         match engine::guarded(|| tera.add_raw_templates(batch.iter().map(|(a, b)| (a.as_str(), b.as_str())))) {
             Ok(Err(e)) => READD_STATS.with(|c| {
@@ -191,7 +196,7 @@ impl CaseInfo<'_> {
             "history": if self.planted.entry == sites::ONE_OFF {
                 "every other template registered, then the source listed as __tera_one_off given to render_str(.., autoescape = true)"
             } else if AFTER_REFUSED_READD.with(|c| c.get()) {
-                "registered; then add_raw_templates(every template moved down three lines + a template using an unknown filter) was refused; then rendered"
+                "registered; then add_raw_templates(every template moved down three lines + every template moved down six lines + a template using an unknown filter) was refused; then rendered"
             } else {
                 "registered, then rendered"
             },
@@ -994,7 +999,7 @@ fn main() {
                 "render-faults-after-refused-readd",
                 items.len() as u64,
                 &format!(
-                    "{} rendering faults x every applicable site x {} paddings, rendered after a refused add_raw_templates call that offered every template again with its text moved down three lines (plus a template using an unknown filter): the report must still describe the registered sources",
+                    "{} rendering faults x every applicable site x {} paddings, rendered after a refused add_raw_templates call that offered every template again twice, with its text moved down three and six lines (plus a template using an unknown filter): the report must still describe the registered sources",
                     n_of(Class::Render),
                     READD_PADS.len()
                 ),
